@@ -13,6 +13,7 @@ import SoyVerif.Ops.Escape
 import SoyVerif.Ops.Value
 import SoyVerif.Ops.Msg
 import SoyVerif.Ops.Eval
+import SoyVerif.Ops.EvalSpec
 
 open SoyVerif SoyVerif.Ops
 
@@ -25,7 +26,8 @@ def allOps : List Op :=
   Ops.Escape.ops ++
   Ops.Value.ops ++
   Ops.Msg.ops ++
-  Ops.Eval.ops
+  Ops.Eval.ops ++
+  Ops.EvalSpec.ops
 
 def handle (op : String) (f : List String) : String :=
   match allOps.find? (·.1 == op) with
